@@ -10,56 +10,6 @@ open Goml.Dce (keys lookup_cons_self lookup_cons_ne)
 
 attribute [local irreducible] Goml.GoCompile.vn Goml.GoCompile.gid Goml.GoCompile.rn
 
-/-- what `structsClosed` gives for an admitted struct -/
-theorem good_struct {env : Env} (hS : structsClosed env = true) {n : String} (hn : n ∈ goodStructs env) :
-    ∃ d, env.getStruct n = some d ∧ d.generics = [] ∧ (d.fields.map fun f => gid f.1).Nodup ∧
-      ∀ f, f ∈ d.fields → valTy env f.2 = true := by
-  have h := List.all_eq_true.mp hS n hn
-  unfold structLocalOK at h
-  cases hd : env.getStruct n with
-  | none => rw [hd] at h; simp at h
-  | some d =>
-    rw [hd] at h
-    simp only [Bool.and_eq_true, List.isEmpty_iff, decide_eq_true_eq, List.all_eq_true] at h
-    exact ⟨d, rfl, h.1.1, h.1.2, fun f hf => h.2 f hf⟩
-
-theorem valTy_flat {env : Env} {t : Ty} (h : valTy env t = true) : flatTy t = true := by
-  cases t <;> simp [valTy, valTyS, scalarTy] at h <;> rfl
-
-/-- looking a name up in `names.zip gs` when the names are pairwise distinct -/
-theorem lookup_zip : ∀ (names : List String) (gs : List GVal) (i : Nat) (x : String) (g : GVal),
-    names.Nodup → names[i]? = some x → gs[i]? = some g → lookupG (names.zip gs) x = some g
-  | [], _, i, x, g, _, hx, _ => by simp at hx
-  | n :: names, [], i, x, g, _, _, hg => by simp at hg
-  | n :: names, g0 :: gs, 0, x, g, _, hx, hg => by
-    simp at hx hg; subst hx; subst hg
-    exact lookup_cons_self _ _ _
-  | n :: names, g0 :: gs, i + 1, x, g, hnd, hx, hg => by
-    simp only [List.getElem?_cons_succ] at hx hg
-    obtain ⟨hn, hnd'⟩ := List.nodup_cons.mp hnd
-    have hne : n ≠ x := fun e => hn (e ▸ List.mem_of_getElem? hx)
-    rw [List.zip_cons_cons, lookup_cons_ne _ _ hne]
-    exact lookup_zip names gs i x g hnd' hx hg
-
-/-- a composite literal that mentions every declared field, in order, evaluates to those fields -/
-theorem slit_fields (F : GFile) : ∀ (decl : List (String × GTy)) (names : List String) (gs : List GVal) (fs : List (String × GVal)),
-    decl.map (·.1) = names → names.length = gs.length →
-    (∀ (i : Nat) (x : String) (g : GVal), names[i]? = some x → gs[i]? = some g → lookupG fs x = some g) →
-    decl.map (fun p => (p.1, (lookupG fs p.1).getD (zero F p.2))) = names.zip gs
-  | [], names, gs, fs, hn, hl, _ => by
-    simp at hn; subst hn
-    cases gs <;> simp at hl ⊢
-  | (f, t) :: decl, [], gs, fs, hn, _, _ => by simp at hn
-  | (f, t) :: decl, n :: names, [], fs, _, hl, _ => by simp at hl
-  | (f, t) :: decl, n :: names, g :: gs, fs, hn, hl, hlook => by
-    simp only [List.map_cons, List.cons.injEq] at hn
-    obtain ⟨hfn, hn'⟩ := hn
-    subst hfn
-    have h0 := hlook 0 f g (by simp) (by simp)
-    simp only [List.map_cons, List.zip_cons_cons, h0, Option.getD_some, List.cons.injEq, true_and]
-    exact slit_fields F decl names gs fs hn' (by simpa using hl)
-      (fun i x g' hx hg => hlook (i + 1) x g' (by simpa using hx) (by simpa using hg))
-
 theorem toGVs_of_args {env : Env} : ∀ {vs : List Val} {gvs : List GVal} {tys : List Ty}, ArgsRel env vs gvs tys →
     toGVs env vs = some gvs ∧ HasTys env vs tys ∧ vs.length = tys.length ∧ gvs.length = tys.length
   | [], [], [], _ => by simp [toGVs, HasTys]
@@ -108,8 +58,8 @@ theorem struct_field {env : Env} : ∀ {vs : List Val} {gs : List GVal} {tys : L
           exact struct_field i h2 ht.2 hi
 
 /-- the fields of a compiled struct literal evaluate to the declared names zipped with the values -/
-theorem fields_both (env : Env) (P : Prog) (F : GFile) {Γ : Ctx} {ρ : Sem.Env} {gρ : GEnv}
-    (hr : EnvRel env Γ ρ gρ) : ∀ {args : List Imm} {fields : List (String × Ty)}, argsOK Γ args (fields.map (·.2)) = true →
+theorem fields_both {env : Env} (P : Prog) {F : GFile} (ht : TyLink env F) {Γ : Ctx} {ρ : Sem.Env} {gρ : GEnv}
+    (hr : EnvRel env Γ ρ gρ) : ∀ {args : List Imm} {fields : List (String × Ty)}, argsOK env Γ args (fields.map (·.2)) = true →
     ∃ vs gvs, ArgsRel env vs gvs (fields.map (·.2)) ∧
       (∀ gw, EvFS F gρ gw (structFieldsOf fields (compileImms env args)) (.ok ((fields.map fun f => gid f.1).zip gvs) gw)) ∧
       (∀ n w, Sem.evalList n P ρ w (args.map Imm.toExpr) = .fail .fuel w ∨
@@ -132,7 +82,7 @@ theorem fields_both (env : Env) (P : Prog) (F : GFile) {Γ : Ctx} {ρ : Sem.Env}
     | cons f fs =>
       simp only [List.map_cons, argsOK, Bool.and_eq_true] at h
       obtain ⟨⟨ha, hta⟩, has⟩ := h
-      obtain ⟨v, gv, hs, hg, hrel, hty⟩ := imm_both env P F ha hr
+      obtain ⟨v, gv, hs, hg, hrel, hty⟩ := imm_both P ht ha hr
       obtain ⟨vs, gvs, hrs, hgs, hss⟩ := ih has
       have ht := scalarEq_eq hta
       refine ⟨v :: vs, gv :: gvs, ⟨hrel, by show HasTy env v f.2; rw [← ht]; exact hty, hrs⟩, fun gw => ?_, fun n w => ?_⟩
@@ -197,5 +147,61 @@ theorem slit_struct {env : Env} {F : GFile} (hS : structsClosed env = true) {sn 
     congr 1
     exact slit_fields F decl _ gvs _ hnames (by simp [hlen])
       (fun i x g hx hg => lookup_zip _ gvs i x g hnd hx hg)
+
+/-! ### enum values -/
+
+/-- the payload fields of a compiled variant literal evaluate to `_i, _{i+1}, …` zipped with the values -/
+theorem tfields_both {env : Env} (P : Prog) {F : GFile} (ht : TyLink env F) {Γ : Ctx} {ρ : Sem.Env} {gρ : GEnv}
+    (hr : EnvRel env Γ ρ gρ) : ∀ {args : List Imm} {tys : List Ty} (i : Nat), argsOK env Γ args tys = true →
+    ∃ vs gvs, ArgsRel env vs gvs tys ∧
+      (∀ gw, EvFS F gρ gw (tupleFields i (compileImms env args)) (.ok ((fieldNames i tys.length).zip gvs) gw)) ∧
+      (∀ n w, Sem.evalList n P ρ w (args.map Imm.toExpr) = .fail .fuel w ∨
+              Sem.evalList n P ρ w (args.map Imm.toExpr) = .ok vs w) := by
+  intro args
+  induction args with
+  | nil =>
+    intro tys i h
+    cases tys with
+    | nil =>
+      refine ⟨[], [], trivial, fun gw => by simpa [tupleFields, compileImms, fieldNames] using evf_nil, fun n w => ?_⟩
+      cases n with
+      | zero => left; rw [Sem.evalList.eq_def]
+      | succ n => right; simp only [List.map_nil]; rw [Sem.evalList.eq_def]
+    | cons t ts => simp [argsOK] at h
+  | cons a as ih =>
+    intro tys i h
+    cases tys with
+    | nil => simp [argsOK] at h
+    | cons t ts =>
+      simp only [argsOK, Bool.and_eq_true] at h
+      obtain ⟨⟨ha, hta⟩, has⟩ := h
+      obtain ⟨v, gv, hs, hg, hrel, hty⟩ := imm_both P ht ha hr
+      obtain ⟨vs, gvs, hrs, hgs, hss⟩ := ih (i + 1) has
+      have htt := scalarEq_eq hta
+      refine ⟨v :: vs, gv :: gvs, ⟨hrel, htt ▸ hty, hrs⟩, fun gw => ?_, fun n w => ?_⟩
+      · have := evf_cons (n := fieldN i) (hg gw) (hgs gw)
+        simpa [tupleFields, compileImms, fieldNames] using this
+      · cases n with
+        | zero => left; rw [Sem.evalList.eq_def]
+        | succ n =>
+          simp only [List.map_cons]
+          rw [Sem.evalList.eq_def]; simp only
+          rcases sem_imm_any hs (w := w) n with h1 | h1
+          · left; rw [h1]
+          · rw [h1]; simp only
+            rcases hss n w with h2 | h2
+            · left; rw [h2]
+            · right; rw [h2]
+
+/-- the value of an enum constructor application and its Go image -/
+theorem enum_value {env : Env} {n : String} (hn : n ∈ goodEnums env) {d : EnumDef} (hd : env.getEnum n = some d)
+    {idx : Nat} {vname : String} {tys : List Ty} (hv : d.variants[idx]? = some (vname, tys))
+    {vs : List Val} {gvs : List GVal} (hargs : ArgsRel env vs gvs tys) :
+    toGV env (.enumV n idx vs) = some (.struct (variantGoName env n vname) ((fieldNames 0 tys.length).zip gvs)) ∧
+      HasTy env (.enumV n idx vs) (.enum n) := by
+  obtain ⟨h1, h2, _, h4⟩ := toGVs_of_args hargs
+  refine ⟨by simp [toGV, hd, h1, hv, h4], ?_⟩
+  simp only [HasTy, hd, hv]
+  exact ⟨trivial, hn, h2⟩
 
 end Goml.GoComp
